@@ -293,10 +293,13 @@ func (it *Interp) appendSlice(st *types.Slice, a, b Value) Value {
 		return as
 	}
 	if len(as)+len(bs) <= cap(as) {
-		r := as[:len(as)+len(bs)]
+		// memmove semantics: the source may overlap the destination (append(s[:i+1], s[i:]...))
+		tmp := make([]Value, len(bs))
 		for i, e := range bs {
-			r[len(as)+i] = copyVal(e)
+			tmp[i] = copyVal(e)
 		}
+		r := as[:len(as)+len(bs)]
+		copy(r[len(as):], tmp)
 		return r
 	}
 	nc := cap(as) * 2
